@@ -806,6 +806,7 @@ def coll_cases(draw):
 def exec_coll(case) -> Soft:
     import cogent3
     from cogent3 import make_aligned_seqs, make_seq, make_unaligned_seqs
+    from cogent3.app.composable import NotCompleted
 
     s = Soft("C12/coll/")
     cid, rna, rows = case["code"], case["rna"], case["rows"]
@@ -904,9 +905,10 @@ def exec_coll(case) -> Soft:
             okr, res = s.call("app/translate_seqs", app, coll)
             if not okr:
                 continue
+            failed = isinstance(res, NotCompleted)  # (a collection of empty sequences is falsy too)
             if rejected:
-                s.check(not bool(res), "app/translate_seqs/accepted", f"{what}: expected NotCompleted, got {res!r}"[:400])
-            elif s.check(bool(res), "app/translate_seqs/not-completed", f"{what}: {res!r}"[:400]):
+                s.check(failed, "app/translate_seqs/accepted", f"{what}: expected NotCompleted, got {res!r}"[:400])
+            elif s.check(not failed, "app/translate_seqs/not-completed", f"{what}: {res!r}"[:400]):
                 exp = {n: w[1] + ("-" if aligned and trim and terminal_stop(data[n]) else "") for n, w in wants.items()}
                 s.eq(sorted((n, str(v)) for n, v in res.to_dict().items()), sorted(exp.items()), "app/translate_seqs", what)
     s.evals = evals
